@@ -14,7 +14,8 @@ EXPLANATION = ("R07.1 per-element classification table of the cleanup loop: with
                "filter handed to cleanup is the naming state's own and can never match the rCURRENT infix; R07.6 shutdown sends Die then joins; on the decision rows of the cleanup thread every Act received is followed by a cleanup run "
                "before the next receive or the end of the thread (a queued request is never dropped), Die/disconnect leave the loop. R07.7 the listing cleanup counts over recognises exactly the family (shared with R14.2). R07.8 the writer is switched to the new file (the old one thereby flushed and closed) before cleanup runs (rotation table shared with R01.4). R07.9 names of rotated files sort in the order of rotation: collision table (shared with R06.4)."
                " R07.2 also: the gz encoder writes into the File itself, or its buffering sink is flushed with the result guarding the removal of the original."
-               " R07.10 cleanup wiring: the Cleanup given to rotate()/o_rotate() and the background-thread flag reach State::new unchanged (shared configuration-wiring tables, rules/cfgwiring.py).")
+               " R07.10 cleanup wiring: the Cleanup given to rotate()/o_rotate() and the background-thread flag reach State::new unchanged (shared configuration-wiring tables, rules/cfgwiring.py)."
+               " R07.11 (shared with R06.2): after a restart the numbering continues above every listed file, compressed ones included (maximum over the listing of plain and .gz files), so descending name order stays newest-first for cleanup.")
 ASSUMPTIONS = ["lexicographic path order of the listing is age order for the configured naming (value-dependent, not decided)", "flate2 finish() completes the gz stream",
                "mpsc channels are FIFO"]
 NOT_DECIDED = ["that lexicographic order is age order (.restart-NNNN siblings, r99999->r100000)", "byte-exact gzip round trip", "interleavings of the cleanup thread with further rotations beyond lock/order facts"]
@@ -52,6 +53,10 @@ def run(R, ctx):
     R.rule('R07.9', 'names of rotated files sort in the order of rotation: collision table (shared with R06.4)')
     import c06 as _c06
     _c06.collision_table(Relabel(R, {'R06.4': 'R07.9'}), ctx)
+    # with number naming the same holds across restarts: the numbering continues above EVERY file cleanup still keeps, compressed ones included - a start
+    # index computed from the plain files only gives the newest content the lowest number, and cleanup (descending name order = newest first) removes it first
+    R.rule('R07.11', 'numbers of rotated files continue above the kept compressed files after a restart (start index rules shared with R06.2)')
+    _c06.start_index(Relabel(R, {'R06.2': 'R07.11'}), ctx)
 
 def ord_rel(row, a, b):
     """relation of a to b recorded in the row for the ordering atom of names a, b (None if not examined)"""
